@@ -134,7 +134,9 @@ def check_cg(ctx, S, c, sibling=None):
     base = "%s/%%s/shift=%d/form=%%s/m=%d/n=%d" % (solver, c["shift"], c["m"], n)
     res = {}
     for form in ("matrix", "function"):
-        ctx.case(("cg", solver, c["A"], c["b"], c["x0"], c["shift"], c["P"], form), facet="cg/" + solver + "/" + form)
+        # trivial: the start vector already solves the normal equations (the spec's machine makes no iteration)
+        ctx.case(("cg", solver, c["A"], c["b"], c["x0"], c["shift"], c["P"], form), nontrivial=K >= 1,
+                 facet="cg/" + solver + "/" + form)
         try:
             x, k, calls = _cg_run(S, c, form)
         except Exception as e:
@@ -214,7 +216,8 @@ def check_prox(ctx, S, c):
     elif op == "l1s":
         got.append(("RegularizedGaussian.l1.strength", _regularized_gaussian(regularization="l1", strength=lam).proximal(x.copy(), gam)))
     for site, v in got:
-        ctx.case(("prox", site, c["x"], c["gam"], c["lam"], c["box"]), facet="prox/" + op)
+        # trivial: the map leaves the input where it is (a point of the set / below no threshold)
+        ctx.case(("prox", site, c["x"], c["gam"], c["lam"], c["box"]), nontrivial=not np.array_equal(x, out), facet="prox/" + op)
         v = np.asarray(v, dtype=float)
         if v.shape != out.shape or not np.array_equal(v, out):
             ctx.mismatch("prox/%s/%s" % (op, site), c, "%s is not the exact Euclidean projection / proximal map" % site,
@@ -264,8 +267,9 @@ def check_kkt(ctx, S, c, idx, thorough):
         t = _q(c["steps"][si])
         abstol = 1e-8 if adaptive else 1e-10
         prox, pname = _prox_of(S, c, idx % 3)
-        ctx.case(("kkt", c["A"], c["h"], c["lam"], c["lo"], c["up"], c["xs"], c["g"], adaptive, si, form, pname),
-                 facet="kkt/%s/%s" % (c["h"], "fista" if adaptive else "ista"))
+        ctx.case(("kkt", c["A"], c["h"], c["lam"], c["lo"], c["up"], c["xs"], c["g"], adaptive, si, form, pname,
+                  "at-fixed-point" if np.array_equal(x0, xs) else "away"),
+                 nontrivial=not np.array_equal(x0, xs), facet="kkt/%s/%s" % (c["h"], "fista" if adaptive else "ista"))
         sig = "fista/%s/%s/adaptive=%d/form=%s/n=%d" % (c["h"], pname, adaptive, form, n)
         try:
             with warnings.catch_warnings():
@@ -312,7 +316,7 @@ def check_lm(ctx, S, c):
         for sparse in ((False, True) if i % 4 == 0 else (False,)):
             if _over_budget(ctx, "lm/", 12):
                 return
-            ctx.case(("lm", c["fam"], c["B"], c["c"], c["a"], c["d"], st, sparse), facet="lm/" + c["fam"])
+            ctx.case(("lm", c["fam"], c["B"], c["c"], c["a"], c["d"], st, sparse), nontrivial=ng0 > 0, facet="lm/" + c["fam"])
             sig = "lm/%s/sparse=%d" % (c["fam"], sparse)
             jf = (lambda x: spa.csr_matrix(jac(x))) if sparse else jac
             try:
@@ -571,7 +575,9 @@ def run(ctx):
     ctx.rule = ("one case per problem emitted by TLC from Solvers.tla (cg: A, b, x0, shift, P with the exact rational vectors of every "
                 "operator application and the exact solution; prox: lattice input with exact output; kkt: A, b, x*, g, regulariser, "
                 "steps; lm: family with its stationary points and starts; wrap: wrapper x method x objective); distinct = problem x "
-                "call-site / operator form / solver variant")
+                "call-site / operator form / solver variant; trivial (not counted) = cg start that already solves the normal "
+                "equations, prox input that is its own image, proximal-gradient run started at the fixed point, LM start that is "
+                "stationary")
     ctx.exhaustive = ctx.tier == "quick"      # thorough adds a SAMPLE of the size-3 problems (every Dim3Mod-th matrix)
     ctx.traces = counts.get("cg", 0)
     ctx.assumptions += ["numpy.linalg.eigvalsh for the strong-convexity constant in the FISTA tolerance",
